@@ -132,7 +132,7 @@ def history_cases(tier):
 
 def _m_cases():
     from vt.props import c03
-    for rk in ('one', 'pkg+subpkg'):
+    for rk in ('one', 'pkg+subpkg', 'package-path'):
         for fi, flt in enumerate(c03.DISK_FILTERS):
             if '-m' in flt or len(flt) >= 4:
                 yield ['e2e_disk', rk, fi]
